@@ -21,7 +21,7 @@
 EXTENDS Naturals, Sequences, FiniteSets, TLC, Json, IOUtils
 
 Chans == 1..2
-MaxConn == 2
+MaxConn == 3       \* one more than the generator uses: the repaired code can mount again where the code as found cannot
 AF == INSTANCE Session WITH AsFoundAbort <- TRUE, AsFoundRemount <- TRUE
 FX == INSTANCE Session WITH AsFoundAbort <- FALSE, AsFoundRemount <- FALSE
 
